@@ -1,15 +1,21 @@
 """C08 - histories that overdraw an account are rejected unless -n is given.
 
-Three-valued oracle, order-independent inside an instant (model.overdraft_verdict):
+Oracle from the rows, independent of the processing order inside an instant (model.overdraft_verdict):
   must reject  : some account's end-of-instant balance < -1e-10  -> RP2ValueError naming exchange and holder
-  must accept  : no account below 0 at any instant under the most pessimistic order inside the instant
-  undecided    : tolerance band [-1e-10, 0) and same-instant transfer chains -> counted, not asserted
+  must accept  : every account's balance, as a function of time, is >= 0 at every instant.  Two sub-classes: no debit
+                 needs a same-instant transfer credit (any order inside the instant works), or some debit does
+                 ("accept_same_instant": e.g. a deposit and a sale recorded with the same timestamp)
+  undecided    : tolerance band [-1e-10, 0) -> counted, not asserted
 With -n the run proceeds and the reported final balance equals the model's (negative where it is).
+
+Known finding F12 (signature-scoped): two *transfers* with one timestamp forming a chain A->X->B are accepted or rejected
+depending on the order of their rows, although X is never negative at any moment in time.
 """
 from __future__ import annotations
 
 from fractions import Fraction
-from typing import Any, Dict, List, Set, Tuple
+import copy
+from typing import Any, Dict, List, Optional, Set, Tuple
 
 from hypothesis import strategies as st
 
@@ -44,12 +50,56 @@ def strategy_case(draw: Any) -> Dict[str, Any]:
     allow = draw(st.booleans())
     case = draw(engine_case(CFG, allow_negative=allow))
     case["overdraft"] = None
-    if draw(st.integers(0, 3)) != 0:
+    kind = draw(st.integers(0, 7))
+    if kind <= 4:
         case["overdraft"] = draw(inject_overdraft(case))
+    elif kind <= 6:
+        case["same_instant"] = draw(add_same_instant_dependency(case))
     if draw(st.booleans()):
         draw(permute_row_numbers(case))
         case["rows_permuted"] = True
     return case
+
+
+@st.composite
+def add_same_instant_dependency(draw: Any, case: Dict[str, Any]) -> Optional[str]:
+    """Append a debit that empties the destination account of a transfer *at the transfer's own timestamp* (day-granularity
+    records: deposit and sale carry the same time): never negative at any moment, but covered only by the same-instant credit.
+    Chosen so that nothing later debits that account.  Returns 'out' / 'intra' (what was appended) or None."""
+    rows = case["rows"]
+    txs = model.make_txs(rows)
+    candidates = []
+    for t in txs:
+        if t.table != "intra" or (t.from_ex, t.from_ho) == (t.to_ex, t.to_ho) or t.received <= 0:
+            continue
+        acc = (t.to_ex, t.to_ho)
+        touched_later = any(
+            u.us >= t.us and u is not t and ((u.table == "out" and (u.ex, u.ho) == acc) or (u.table == "intra" and acc in ((u.from_ex, u.from_ho), (u.to_ex, u.to_ho))) or (u.table == "in" and (u.ex, u.ho) == acc and u.us == t.us))
+            for u in txs
+        )
+        if not touched_later:
+            candidates.append(t)
+    if not candidates:
+        return None
+    t = draw(st.sampled_from(candidates))
+    acc = (t.to_ex, t.to_ho)
+    balance = model.account_flows([u for u in txs if u.us <= t.us], None)[acc].final
+    if balance <= 0:
+        return None
+    amount = balance if draw(st.booleans()) else max(Fraction(1, 10**11), balance - t.received / 2)
+    kind = draw(st.sampled_from(["out", "out", "intra"]))
+    next_row = max(u.row for u in txs) + 1
+    if kind == "out":
+        rows.append({"table": "out", "row": next_row, "ts": t.ts, "ex": acc[0], "ho": acc[1], "type": draw(st.sampled_from(["sell", "gift", "fee"])), "price": "7.5", "out": "0", "fee": "0", "uid": "same-instant"})
+        field = "fee" if rows[-1]["type"] == "fee" else "out"
+        rows[-1][field] = gen._frac_to_str(amount)
+    else:
+        others = [(e, h) for e in case["exchanges"] for h in case["holders"] if (e, h) != acc]
+        if not others:
+            return None
+        dest = draw(st.sampled_from(others))
+        rows.append({"table": "intra", "row": next_row, "ts": t.ts, "from_ex": acc[0], "from_ho": acc[1], "to_ex": dest[0], "to_ho": dest[1], "price": "7.5", "sent": gen._frac_to_str(amount), "received": gen._frac_to_str(amount), "uid": "same-instant"})
+    return kind
 
 
 def strategy(tier: str) -> Any:
@@ -120,8 +170,10 @@ def evaluate(case: Dict[str, Any]) -> Outcome:
             out.nontrivial = True
             out.classes.add("negative_final_reported")
         return out
+    if case.get("same_instant"):
+        out.classes.add(f"same_instant_debit_appended_{case['same_instant']}")
     if verdict == "undecided":
-        out.skipped = "undecided(tolerance band or same-instant transfer chain)"
+        out.skipped = "undecided(tolerance band)"
         return out
     if verdict == "reject":
         finals = model.account_flows(txs, None)
@@ -145,8 +197,25 @@ def evaluate(case: Dict[str, Any]) -> Outcome:
         elif not global_over:
             out.fail("error_does_not_name_account", f"rejected, but the error does not name the overdrawn account {who}: {dump['error'][:300]}")
         return out
-    # verdict == accept
+    # verdict == accept / accept_same_instant
+    if verdict == "accept_same_instant":
+        out.nontrivial = True
     if not dump["ok"]:
-        out.fail("no_overdraft_but_rejected", f"no account ever goes negative, yet the run failed with {dump['error_type']}: {dump['error'][:300]}")
+        if global_over:
+            out.skipped = "whole_holding_overspent(C02)"
+            return out
+        why = "" if verdict == "accept" else f" (account {who} is debited and credited by a transfer at the same instant; its balance at that moment in time is >= 0)"
+        out.fail("no_overdraft_but_rejected", f"no account ever goes negative{why}, yet the run failed with {dump['error_type']}: {dump['error'][:300]}")
         return out
     return out
+
+
+def known_signature(case: Dict[str, Any], clause: str, detail: str) -> Optional[str]:
+    """F12: a same-instant transfer chain A->X->B rejected because the row of X->B precedes the row of A->X."""
+    if clause != "no_overdraft_but_rejected" or "IntraTransaction" not in detail:
+        return None
+    txs = model.make_txs(copy.deepcopy(case["rows"]))
+    for ex, ho in model.same_instant_transfer_chain_accounts(txs):
+        if f'account "{ex}"' in detail and f'holder "{ho}"' in detail:
+            return "F12_same_instant_transfer_chain_order"
+    return None
